@@ -37,7 +37,7 @@ def mc_all(ctx, jobs):
     ctx._spec_copy = locked
     try:
         with ThreadPoolExecutor(max_workers=len(jobs)) as ex:
-            futs = [ex.submit(mc_pass if kind == "pass" else mc_asis, ctx, cfg, **kw) for kind, cfg, kw in jobs]
+            futs = [ex.submit({"pass": mc_pass, "asis": mc_asis, "mut": mc_mut}[kind], ctx, cfg, **kw) for kind, cfg, kw in jobs]
             errs = []
             for f in futs:
                 try:
@@ -85,6 +85,19 @@ def mc_asis(ctx, cfg, expect_tag=None, expect_inv=None, expect_live=False, timeo
         raise vlib.MachineryError("as-is configuration %s: expected a liveness/invariant counterexample:\n%s" % (cfg, out[-3000:]))
     got = [t for t in tags if ('viol = "%s"' % t) in out]
     ctx.extra.setdefault("asis_design_counterexamples", []).append({"cfg": cfg, "obligation": (got[0] if got else "Live/NoLostAnnounce")})
+
+
+def mc_mut(ctx, cfg, expect_tag=None, expect_inv=None, timeout=900):
+    """A design mutant (a seeded fault class written into the machine, not the behaviour of the tree) must be rejected by TLC with
+    the expected obligation tag / invariant: shows that the design-level obligations are sensitive to that class."""
+    ok, out = ctx.tlc_mc("MC_Announce", cfg, timeout=timeout, expect_ok=False, workers=MCW)
+    if ok:
+        raise vlib.MachineryError("design mutant %s was expected to violate the design obligations but passed" % cfg)
+    if expect_tag and ('viol = "%s"' % expect_tag) not in out:
+        raise vlib.MachineryError("design mutant %s failed, but not with %s:\n%s" % (cfg, expect_tag, out[-3000:]))
+    if expect_inv and ("Invariant %s is violated" % expect_inv) not in out:
+        raise vlib.MachineryError("design mutant %s failed, but not on invariant %s:\n%s" % (cfg, expect_inv, out[-3000:]))
+    ctx.extra.setdefault("design_mutants_rejected", []).append({"cfg": cfg, "by": expect_tag or expect_inv})
 
 
 # ----------------------------------------------------------------------------------------------------------- traces
@@ -152,7 +165,7 @@ def prev_ann(s, pos, k=None, t=None, periodic=True):
 def brief(s, pos, n=14):
     """The scenario history up to pos (compact), for the replay file."""
     keep = ("op", "now", "k", "t", "ev", "res", "kind", "iv", "miv", "dur", "pid", "left", "down", "up", "tp", "case", "out", "what", "n", "v",
-            "slot", "ok", "ks", "h", "same", "late", "answered", "after_ms", "status", "nmix", "nlost", "burst")
+            "slot", "ok", "ks", "h", "same", "late", "answered", "after_ms", "status", "nmix", "nlost", "burst", "env", "cid")
     rows = [{k: d[k] for k in keep if k in d} for p, d in s["lines"] if p <= pos and d["op"] != "tick"]
     return {"scenario": s["name"], "kind": s["kind"], "cfg": {k: s["init"][k] for k in ("ann", "tor", "trk", "cmin", "unit", "bo", "lat", "slk", "meta")},
             "history_tail": rows[-n:]}
@@ -295,8 +308,10 @@ def run(ctx):
         "counters: left is compared with the generated torrent's length and the driver's Stats() at a quiescent point before Stop; "
         "downloaded is bounded by what the scripted seeder served",
         "UDP retransmissions (same connection id / action / transaction id) are compared byte for byte with the first datagram of the "
-        "transaction; the 15 s BEP 15 retransmission timer is not configurable (method of udpBackOff), so that family runs in real time "
-        "in parallel with the others; Torrent.AddTracker is exercised in every torrent state (allocation / verification held by a storage gate)",
+        "transaction, and none may arrive for a transaction the tracker has answered - by data OR by an error packet (two torrents of the "
+        "family get a plain-text / bencoded error packet for 'started', their retry is accepted with a 1800 s interval, the window covers "
+        "the first retransmission time-out + 4.5 s); the 15 s BEP 15 retransmission timer is not configurable (a literal inside "
+        "udpBackOff.NextBackOff, no variable a shim could shorten), so that family runs in real time in parallel with the others; Torrent.AddTracker is exercised in every torrent state (allocation / verification held by a storage gate)",
         "real time; scenarios run in parallel goroutines (they mostly sleep); the announce-storm scenarios run in a separate phase and are capped at 150 announces",
     ]
     # 2. implementation -> specification (driver started first: it runs while TLC works on step 1)
@@ -308,7 +323,9 @@ def run(ctx):
     # 1. design level: the announcer machine implies the obligations for every environment; the as-is transcription does not
     mc_all(ctx, [("pass", "MC_Announce_ev.cfg", {}),
                  ("asis", "MC_Announce_ev_asis.cfg", {"expect_tag": "C15.gap"}),
-                 ("asis", "MC_Announce_stop_asis.cfg", {"expect_tag": "C15.ev.stopped.member"})])
+                 ("asis", "MC_Announce_stop_asis.cfg", {"expect_tag": "C15.ev.stopped.member"}),
+                 # BEP 15 retransmission as an environment action of the machine: a transaction answered by an error packet is finished
+                 ("mut", "MC_Announce_udp_mut_errkeep.cfg", {"expect_tag": "C15.id.retransmit.stale"})])
     results = join()
     drop_failed(ctx, results)
     L, scs, viols = validate(ctx, tp)
@@ -354,6 +371,8 @@ def account(ctx, scs):
                 first = set()
             if d["op"] == "rtx":
                 ob["C15.id.retransmit"] += 1
+            if s["kind"] == "rtx" and d["op"] == "ann" and d.get("tp") == "udp" and d.get("kind") == "fail":
+                ob["C15.id.retransmit.after_error_packet"] += 1     # transactions answered by an ERROR packet and watched for >= 15 s
             if d["op"] != "ann":
                 continue
             ob["C15.id"] += 1
@@ -387,7 +406,7 @@ def account(ctx, scs):
         ctx.sample({"scenario": s["name"], "kind": s["kind"], "first_events": [
             {k: d[k] for k in ("op", "now", "k", "ev", "res", "iv", "miv", "tp", "left") if k in d} for _, d in s["lines"][:8]]})
     if ctx.prop == "C15":
-        need = ["C15.ev.started", "C15.ev.completed", "C15.ev.stopped", "C15.gap", "C15.id.retransmit"]
+        need = ["C15.ev.started", "C15.ev.completed", "C15.ev.stopped", "C15.gap", "C15.id.retransmit", "C15.id.retransmit.after_error_packet"]
         miss = [x for x in need if ob[x] == 0]
         kinds = {s["kind"] for s in scs}
         miss += [k for k in ("addtracker-stopped", "addtracker-allocating", "addtracker-verifying", "addtracker-downloading",
